@@ -122,7 +122,7 @@ def cases(ctx):
                     c["nominal"] = 1.0
                     out.append({"kind": "mean", "model": m, "dev": k, "cfg": c})
         # refusal / acceptance at the loop-slot limit
-        if len(names) > info.parameters.max_pd:
+        if len(info.parameters.pd_1d) > info.parameters.max_pd:
             out.append({"kind": "toomany", "model": m, "n": info.parameters.max_pd + 1})
             out.append({"kind": "toomany", "model": m, "n": info.parameters.max_pd})
     mesh_models = MESH_MODELS_QUICK if ctx.quick else models
